@@ -291,7 +291,8 @@ PROPS["C10"] = {
     "level_text": "Generated-history search against an exact model of live ids, producer calls and duplicate events; the spawn race is sampled with up to 12 goroutines per burst.",
     "level_note": "child spawns are serialised by their parent actor, so only top-level bursts race; Stop is always awaited before the next op",
     "assumptions": ENG_ASSUME,
-    "legs": [rapid("spawns", "eng", "TestSpawns", 1500, 30000, shards=(2, 12))],
+    "legs": [rapid("spawns", "eng", "TestSpawns", 1500, 30000, shards=(2, 12)),
+             rapid("mass", "eng", "TestMassRegistry", 6, 60, shards=(1, 4))],
 }
 
 PROPS["C11"] = {
